@@ -7,6 +7,11 @@ proof gate (coq/Props/C08.v: ordering/sign logic of correlation_function and _te
   overlap   finite (norms, ignore_form) and infinite (dominant eigenvalue of the dense transfer matrix)
   ops_list  _term_to_ops_list  vs  Model/JW.v term_to_ops_list (vm_compute)
   corr_words  per-site operator words of Model/Corr.v (computed inside Coq) -> dense kron -> compared with correlation_function
+  window / sample_ops  expectation_value windows vs Model/Window.v, operator selection of sample_measurements vs Model/Sample.v
+  sample_loop  per-site weights and returned weight of sample_measurements on exactly representable MPS vs the weight loop of
+            Model/Sample.v instantiated over Gaussian rationals (Model/SampleCheck.v, exact comparison)
+  tcf_words per-site operator words contracted by term_correlation_function_right/_left (recorded from outside) vs Model/CorrTerm.v
+            (Model/CorrTermCheck.v), including the ValueErrors
 """
 import json
 import re
@@ -259,6 +264,93 @@ def gen_measurements(rng, st, tag, env=False):
     return ms
 
 
+# ---------------------------------------------------------------------- exact states for the stream sample_loop
+UNITS = [(1.0, 0.0), (-1.0, 0.0), (0.0, 1.0), (0.0, -1.0)]
+
+
+def _cmul(a, b):
+    return (a[0] * b[0] - a[1] * b[1], a[0] * b[1] + a[1] * b[0])
+
+
+def exact_tensor(rng, chiL, chiR):
+    """right-isometric B[vL][p][vR] on a site of dimension 4 (or 7 for two types with chiL = 1), bond dimensions 1 or 4,
+    entries unit * 2^-k (unit in 1,-1,i,-i); returns (nested list of (re, im), type name)"""
+    d = 4
+    pi = rng.sample(range(d), d)
+    sg = rng.sample(range(d), d)
+    u = lambda: rng.choice(UNITS)   # noqa: E731
+    zeros = lambda dim: [[[(0.0, 0.0) for _ in range(chiR)] for _ in range(dim)] for _ in range(chiL)]   # noqa: E731
+    if chiL == 1 and rng.random() < 0.3:
+        # 7 outcomes with amplitudes 1/2 (three of them) and 1/4 (four of them); the four small ones lead to the same bond state
+        B = zeros(7)
+        perm = rng.sample(range(7), 7)
+        b3 = rng.randrange(4)
+        others = [b for b in range(4) if b != b3]
+        for n, s_ in enumerate(perm):
+            b = 0 if chiR == 1 else (others[n] if n < 3 else b3)
+            B[0][s_][b] = _cmul(u(), (0.5 if n < 3 else 0.25, 0.0))
+        return B, 'mixed7' if chiR == 1 else 'open7'
+    B = zeros(d)
+    if (chiL, chiR) == (1, 1):
+        if rng.random() < 0.6:
+            for s_ in range(d):
+                B[0][s_][0] = _cmul(u(), (0.5, 0.0))
+            return B, 'uniform'
+        B[0][rng.randrange(d)][0] = u()
+        return B, 'basis'
+    if (chiL, chiR) == (1, 4):
+        for s_ in range(d):
+            B[0][s_][pi[s_]] = _cmul(u(), (0.5, 0.0))
+        return B, 'open'
+    if (chiL, chiR) == (4, 1):
+        for a in range(d):
+            B[a][pi[a]][0] = u()
+        return B, 'close'
+    t = rng.choice(['carry', 'latin', 'hadamard'])
+    for a in range(d):
+        if t == 'carry':          # delta(p = pi(a)) delta(b = sigma(a))
+            B[a][pi[a]][sg[a]] = u()
+        elif t == 'latin':        # delta(p = pi(a) + b mod 4) / 2
+            for b in range(d):
+                B[a][(pi[a] + b) % d][b] = _cmul(u(), (0.5, 0.0))
+        else:                     # delta(p = pi(a)) i^(a b) / 2
+            ua = u()
+            for b in range(d):
+                B[a][pi[a]][b] = _cmul(_cmul(ua, UNITS[[0, 2, 1, 3][(a * b) % 4]]), (0.5, 0.0))
+    return B, t
+
+
+def exact_mps(rng, L, infinite):
+    """bond dimensions chi_0..chi_L in {1, 4} (finite: chi_0 = chi_L = 1; infinite: chi_0 = chi_L), tensors of exact_tensor,
+    singular values 1 resp. (1/2, 1/2, 1/2, 1/2) (the Schmidt values of these states)"""
+    chi = [rng.choice([1, 4, 4]) for _ in range(L + 1)]
+    if infinite:
+        chi[L] = chi[0]
+    else:
+        chi[0] = chi[L] = 1
+    Bs, types = [], []
+    for i in range(L):
+        B, t = exact_tensor(rng, chi[i], chi[i + 1])
+        Bs.append(B)
+        types.append(t)
+    SVs = [[1.0] if c == 1 else [0.5] * 4 for c in chi]
+    return Bs, SVs, types
+
+
+def frac_lit(x):
+    """exact rational literal (numerator, denominator) of a float (Coq text; the case files are in Z_scope)"""
+    n, d = float(x).as_integer_ratio()
+    return '(%s, %d)' % (('(%d)' % n) if n < 0 else '%d' % n, d)
+
+
+def gauss_lit(z):
+    return '(%s, %s)' % (frac_lit(z[0]), frac_lit(z[1]))
+
+
+def tensor_lit(t):
+    return '[' + '; '.join('[' + '; '.join('[' + '; '.join(gauss_lit(z) for z in row) + ']' for row in mat) + ']' for mat in t) + ']'
+
+
 def judge(ctx, case, tag, m, r, tol):
     """compare one record; returns nothing, records failures"""
     what = m['f']
@@ -316,8 +408,8 @@ def judge(ctx, case, tag, m, r, tol):
     return True
 
 
-def run_chunks(ctx, kind, cases):
-    n = max(1, min(common.NPROC, len(cases)))
+def run_chunks(ctx, kind, cases, nproc=None):
+    n = max(1, min(nproc or common.NPROC, len(cases)))
     chunks = [cases[i::n] for i in range(n)]
     res = common.run_impl_parallel('c08_impl.py', [{'kind': kind, 'cases': ch} for ch in chunks], timeout=1500)
     out = [None] * len(cases)
@@ -339,9 +431,195 @@ def parse_coq_nested(out):
     return json.loads(txt)
 
 
+def stream_sample_loop(ctx, rng, boost, corrupt=None):
+    """weight loop of sample_measurements vs Model/Sample.v instantiated with exact Gaussian rationals (Model/SampleCheck.v)"""
+    cases = []
+    for _ in range(ctx.pick(30, 200) * boost):
+        inf = rng.random() < 0.4
+        L = rng.randint(1, 5)
+        Bs, SVs, types = exact_mps(rng, L, inf)
+        qs = []
+        for _ in range(6):
+            first = rng.randint(-L, L) if inf else rng.randint(0, L - 1)
+            last = first + rng.randint(0, 2 * L) if inf else rng.randint(first, L - 1)
+            if not inf and rng.random() < 0.4:
+                first, last = 0, L - 1          # the full finite chain: phase branch
+            qs.append({'first': first, 'last': last, 'seed': rng.randrange(10 ** 6), 'complex_amplitude': rng.random() < 0.5})
+        cases.append({'L': L, 'bc': 'infinite' if inf else 'finite', 'Bs': Bs, 'SVs': SVs, 'types': types, 'queries': qs})
+    res = run_chunks(ctx, 'sample_loop', cases, nproc=ctx.pick(4, 12))
+    lits, src, nq = [], [], 0
+    for case, rr in zip(cases, res):
+        if rr is None:
+            continue
+        if 'runner_error' in rr:
+            ctx.fail('correspondence', 'sample_loop runner failed: ' + rr['runner_error'][-400:], {'stream': 'sample_loop', 'case': case})
+            continue
+        qlits, infos = [], []
+        for q, x in zip(case['queries'], rr['results']):
+            info = {'stream': 'sample_loop', 'L': case['L'], 'bc': case['bc'], 'types': case['types'], 'query': q, 'impl': x}
+            if 'error' in x:
+                ctx.fail('correspondence', 'sample_measurements raised on an exact state: ' + x['error'], info)
+                continue
+            n = q['last'] - q['first'] + 1
+            nr = x['norms']
+            # npc.norm is called twice per site (weight; theta / norm) except on the last one
+            if len(nr) != 2 * n - 1 or any(nr[2 * k] != nr[2 * k + 1] for k in range(n - 1)) or len(x['sigmas']) != n:
+                ctx.fail('correspondence', 'sample_measurements: unexpected sequence of npc.norm calls %s for %d sites' % (nr, n), info)
+                continue
+            ws = nr[0::2]
+            full = case['bc'] == 'finite' and q['first'] == 0 and q['last'] == case['L'] - 1
+            ctx.count('sample_loop', [case['Bs'], case['bc'], q], nontrivial=n >= 2 and any(w != 1.0 for w in ws),
+                      sample={'types': case['types'], 'query': q, 'weights': ws, 'total': x['weight'], 'full': full})
+            tot = x['weight']
+            if corrupt == nq:
+                tot = [tot[0] * 2.0, tot[1]]
+            nq += 1
+            qlits.append('(%d, %s, %s, %s, %s, %s)' % (q['first'], coq_lit(q['complex_amplitude']), tensor_lit(x['theta0']),
+                                                       '[' + '; '.join('%d' % s_ for s_ in x['sigmas']) + ']',
+                                                       '[' + '; '.join(frac_lit(w) for w in ws) + ']', gauss_lit(tot)))
+            infos.append(info)
+        if qlits:
+            lits.append('(%s, %d, [%s], [%s])' % (coq_lit(case['bc'] == 'finite'), case['L'], '; '.join(tensor_lit(b) for b in rr['B']),
+                                                  ';\n  '.join(qlits)))
+            src.append(infos)
+    if lits:
+        bad, err = common.coq_failing_indices('cases_c08_sloop', ['Base.Prelude', 'Model.Sample', 'Model.SampleCheck'], 'check_sample_case', lits)
+        if err:
+            ctx.fail('correspondence', 'model evaluation failed (sample_loop): ' + err[-600:], None)
+        for b in bad[:5]:
+            infos = src[b]
+            ctx.fail('correspondence', 'Model/Sample.v (sample_factors / sample_weight over exact Gaussian rationals) and sample_measurements disagree '
+                     'on one of the calls (first, last, complex_amplitude, weights per site, returned) %s of an exact state with tensors %s'
+                     % ([(i_['query']['first'], i_['query']['last'], i_['query']['complex_amplitude'], i_['impl']['norms'][0::2],
+                          i_['impl']['weight']) for i_ in infos], infos[0]['types']), {'stream': 'sample_loop', 'calls': infos})
+        ctx.cov['sample_loop_cases_validated_against_impl'] = nq
+        return bad
+    return []
+
+TCF_CLASSES = {'F': ('FermionSite', {'conserve': 'None'}), 'X': ('SpinHalfFermionSite', {'cons_N': 'None', 'cons_Sz': 'None'}),
+               'S': ('SpinHalfSite', {'conserve': 'None'}), 'B': ('BosonSite', {'Nmax': 2, 'conserve': 'None'})}
+
+
+def gen_tcf_case(rng):
+    """a chain with a periodic pattern of site classes and queries for term_correlation_function_right/_left: random terms
+    (fermionic and bosonic operators, several on one site, any order, negative relative sites), several offsets; separated,
+    touching and overlapping terms, equal and different fermion parity"""
+    P = rng.choice([1, 1, 2, 3])
+    pat = [rng.choice(['F', 'F', 'X', 'S', 'B']) for _ in range(P)]
+    if all(c in 'SB' for c in pat) and rng.random() < 0.7:
+        pat[0] = 'F'
+    inf = rng.random() < 0.4
+    L = P * rng.choice([1, 2]) if inf else 24
+    sites = [spec(TCF_CLASSES[pat[k % P]][0], **TCF_CLASSES[pat[k % P]][1]) for k in range(L)]
+    cls = lambda k: TCF_CLASSES[pat[k % P]][0]   # noqa: E731
+
+    def term(start, n_ops, width, want_parity=None):
+        t = []
+        for _ in range(n_ops):
+            k = start + rng.randrange(width)
+            c = cls(k)
+            t.append([rng.choice(FERM[c]) if c in FERM and rng.random() < 0.6 else rng.choice(EVEN[c]), k])
+        par = sum(1 for op, k in t if cls(k) in FERM and op in FERM[cls(k)]) % 2
+        if want_parity is not None and par != want_parity:
+            ks = [k for k in range(start, start + width) if cls(k) in FERM]
+            if ks:
+                k = rng.choice(ks)
+                t.insert(rng.randrange(len(t) + 1), [rng.choice(FERM[cls(k)]), k])
+                par = want_parity
+        return t, par
+    qs = []
+    for _ in range(8):
+        base = rng.randint(0, 2) if not inf else rng.randint(-2 * L, L)
+        wL, wR = rng.randint(1, 3), rng.randint(1, 3)
+        tL, pL = term(base, rng.randint(1, 4), wL)
+        endL = max(k for _, k in tL)
+        gap = rng.choice([-1, 0, 1, 1, 2, 3, 4])            # first site of the window of term_R minus last site of term_L
+        startR = endL + gap if inf else max(endL + gap, 0)
+        tR, pR = term(startR, rng.randint(1, 4), wR, want_parity=pL if rng.random() < 0.8 else None)
+        # write the terms relative to arbitrary origins
+        oL = rng.choice([base, base, base + 1, min(k for _, k in tL), base - 1])
+        oR = rng.choice([startR, startR, startR + 1, min(k for _, k in tR), startR - 2])
+        relL = [[op, k - oL] for op, k in tL]
+        relR = [[op, k - oR] for op, k in tR]
+        more = sorted(set(P * rng.randint(0, 3) for _ in range(rng.randint(0, 2))) - {0})
+        if rng.random() < 0.5:
+            q = {'variant': 'right', 'term_L': relL, 'term_R': relR, 'i_L': oL, 'j_R': [oR] + [oR + m for m in more]}
+            rng.shuffle(q['j_R'])
+        else:
+            iL = [oL] + [oL - m for m in more if inf or base - m >= 0]
+            rng.shuffle(iL)
+            q = {'variant': 'left', 'term_L': relL, 'term_R': relR, 'i_L': iL, 'j_R': oR}
+        q['parity'] = [pL, pR]
+        q['gap'] = gap
+        qs.append(q)
+    return {'sites': sites, 'bc': 'infinite' if inf else 'finite', 'queries': qs}
+
+
+def stream_tcf_words(ctx, rng, boost, corrupt=None):
+    """operator words term_correlation_function_right/_left contract per site vs Model/CorrTerm.v (Model/CorrTermCheck.v)"""
+    cases = [gen_tcf_case(rng) for _ in range(ctx.pick(16, 120) * boost)]
+    res = run_chunks(ctx, 'tcf_words', cases, nproc=ctx.pick(4, 12))
+    lits, src = [], []
+    for case, rr in zip(cases, res):
+        if rr is None:
+            continue
+        if isinstance(rr, dict):
+            ctx.fail('correspondence', 'tcf_words runner failed: ' + rr.get('runner_error', '')[-400:], {'stream': 'tcf_words', 'case': case})
+            continue
+        docs = [orc.doc_site(*s_) for s_ in case['sites']]
+        L = len(docs)
+        for q, x in zip(case['queries'], rr):
+            info = {'stream': 'tcf_words', 'sites': case['sites'][:6], 'L': L, 'bc': case['bc'], 'query': q, 'impl': x}
+            if x.get('error'):
+                ctx.fail('correspondence', 'tcf_words runner: %s on %s' % (x['error'], q), info)
+                continue
+            ids = {}
+
+            def oid(n):
+                return ids.setdefault(n, len(ids) + 1)
+            left = q['variant'] == 'left'
+            offs_L = sorted(q['i_L'], reverse=True) if left else [q['i_L']]
+            offs_R = [q['j_R']] if left else sorted(q['j_R'])
+            itL = [(oid(op), k, bool(docs[(k + offs_L[0]) % L].needs_JW(op))) for op, k in q['term_L']]
+            itR = [(oid(op), k, bool(docs[(k + offs_R[0]) % L].needs_JW(op))) for op, k in q['term_R']]
+            entries = x.get('entries') if 'ValueError' not in x else [None] * (len(offs_L) * len(offs_R))
+            moving = offs_L if left else offs_R
+            if len(entries) != len(moving):
+                ctx.fail('correspondence', 'tcf_words: %d entries for %d offsets' % (len(entries), len(moving)), info)
+                continue
+            for off, e in zip(moving, entries):
+                if e is None:
+                    obs, lo = None, min(offs_L[0] + min(k for _, k in q['term_L']), offs_R[0] + min(k for _, k in q['term_R'])) - 2
+                else:
+                    lo = e['lo']
+                    obs = Some([[(0, True) if n == 'JW' else (oid(n), bool(docs[(lo + t) % L].needs_JW(n))) for n in w]
+                                for t, w in enumerate(e['words'])])
+                pqr = (offs_L[0], off, q['j_R']) if left else (q['i_L'], offs_R[0], off)
+                ctx.count('tcf_words', [case['sites'][:3], case['bc'], q['variant'], q['term_L'], q['term_R'], pqr],
+                          nontrivial=e is not None and sum(q['parity']) > 0,
+                          sample={'query': q, 'offsets': pqr, 'impl': e if e is not None else x})
+                if corrupt == len(lits) and obs is not None:
+                    obs.v[1] = obs.v[1] + [(0, True)]
+                lits.append(coq_lit((left, itL, itR, pqr[0], pqr[1], pqr[2], lo, obs)))
+                src.append((info, pqr, e))
+    if lits:
+        bad, err = common.coq_failing_indices('cases_c08_tcf', ['Base.Prelude', 'Model.JW', 'Model.Corr', 'Model.CorrTerm', 'Model.CorrTermCheck'],
+                                              'check_tcf_case', lits)
+        if err:
+            ctx.fail('correspondence', 'model evaluation failed (tcf_words): ' + err[-600:], None)
+        for b in bad[:5]:
+            info, pqr, e = src[b]
+            ctx.fail('correspondence', 'Model/CorrTerm.v tcf_%s_words and term_correlation_function_%s disagree for the offsets %s of %s / %s: '
+                     'impl %s' % (info['query']['variant'], info['query']['variant'], pqr, info['query']['term_L'], info['query']['term_R'],
+                                  e if e is not None else info['impl']), info)
+        ctx.cov['tcf_words_cases_validated_against_impl'] = len(lits)
+        return bad
+    return []
+
+
 def main(ctx):
     rng = ctx.rng
-    ctx.proof = common.check_proofs('C08')
+    ctx.proof = common.check_proofs('C08', extra_targets=['Model/SampleCheck.vo', 'Model/CorrTermCheck.vo'])
     boost = 1 if ctx.proof.ok else 3
     hist = {}
 
@@ -539,6 +817,12 @@ def main(ctx):
                      % (q['first'], q['last'], len(q['ops']), x['rec']), {'stream': 'sample_ops', 'case': case, 'query': q, 'impl': x})
     ctx.cov['sample_ops_cases_validated_against_impl'] = len(so_coq)
 
+    # ------------------------------------------------------------------ weight loop of sample_measurements vs Model/Sample.v (T08_sample_weights)
+    stream_sample_loop(ctx, rng, boost)
+
+    # ------------------------------------------------------------------ term_correlation_function_right/_left words vs Model/CorrTerm.v (T08_tcf_*)
+    stream_tcf_words(ctx, rng, boost)
+
     # ------------------------------------------------------------------ correlation_function words of Model/Corr.v -> dense
     wcases = []
     for _ in range(ctx.pick(120, 1200) * boost):
@@ -602,11 +886,14 @@ def main(ctx):
         'C08 not modelled in Coq: contraction numerics, LP/RP environments, TransferMatrix eigenvectors (oracle only, 1e-10 / 1e-8 infinite)',
         'C08 Coq model: operator names are abstract letters with a need_JW flag; local relations JW^2=1, JW f = -f JW are those proved per site table in C12',
     ]
-    return ctx.finish(RULE, 'theorems of coq/Props/C08.v (all i, j, all terms); _term_to_ops_list and the correlation_function words of the '
-                      'model compared with the implementation; every measurement function compared with dense <bra|O|ket>')
+    return ctx.finish(RULE, 'theorems of coq/Props/C08.v (all i, j, all terms); _term_to_ops_list, the correlation_function words, the '
+                      'term_correlation_function_right/_left words and the weight loop of sample_measurements (exact rationals) of the '
+                      'models compared with the implementation; every measurement function compared with dense <bra|O|ket>')
 
 
 RULE = ('state: one case per (state, measurement call); states: finite L=2-7 (SpinHalf/Spin-1/Fermion/SpinHalfFermion/Boson/mixed, several '
         'conserve options, random entangled, optionally compressed to chi 2-3), segments cut out of finite states, infinite unit cells 1-3; '
         'non-trivial when the state has a bond dimension > 1 and the call did not raise; env: same with a different random bra; '
-        'ops_list/corr_words: random terms / (i, j, opstr, str_on_first) tuples; distinct = distinct canonical inputs.')
+        'ops_list/corr_words: random terms / (i, j, opstr, str_on_first) tuples; sample_loop: one case per sample_measurements call on an '
+        'exactly representable MPS (non-trivial: >= 2 sites and a weight != 1); tcf_words: one case per result entry (non-trivial: '
+        'defined and fermionic operators present); distinct = distinct canonical inputs.')
